@@ -103,11 +103,18 @@ def run(tier):
     seqs = []
     for n in range(0, (5 if thorough else 4) + 1):
         seqs += list(itertools.product(["A", "A2", "B"], repeat=n))
-    for seq in seqs:
+    from flow.record import RecordDescriptor as _RD
+
+    # every sequence as it is, and -- where a descriptor occurs more than once -- once more with an EQUAL descriptor
+    # re-created for every record (records coming from several sources: new, equal descriptor objects in mid-run)
+    work = [(s, False) for s in seqs] + [(s, True) for s in seqs if len(set(s)) < len(s) and (thorough or len(s) <= 3)]
+    for seq, churn in work:
         hist = [{"d": d, "id": i + 1} for i, d in enumerate(seq)]
         recs = {}
         for h in hist:
             d = D[h["d"]]
+            if churn:
+                d = _RD(d.name, [tuple(x) for x in d.get_field_tuples()])
             kw = {"n": h["id"], "s": "v%d" % h["id"], "x": "x", "other": "o%d" % h["id"]}
             recs[h["id"]] = d(**{n: kw[n] for _, n in d.get_field_tuples()}, _generated=gen.GEN, _source="src")
         for oi, o in enumerate(OPTS):
@@ -122,6 +129,13 @@ def run(tier):
                 try:
                     with RecordWriter(url) as w:
                         for h in hist:
+                            if churn:
+                                # the equal descriptor is re-created (and its record built) just before the write, as a
+                                # reader of the next source would do
+                                dd = D[h["d"]]
+                                dd = _RD(dd.name, [tuple(x) for x in dd.get_field_tuples()])
+                                kw = {"n": h["id"], "s": "v%d" % h["id"], "x": "x", "other": "o%d" % h["id"]}
+                                recs[h["id"]] = dd(**{n: kw[n] for _, n in dd.get_field_tuples()}, _generated=gen.GEN, _source="src")
                             w.write(recs[h["id"]])
                     text = read_text(p)
                     if writer == "csv":
@@ -135,7 +149,7 @@ def run(tier):
                 except Exception as e:
                     c["raised"], c["exc"] = True, type(e).__name__ + ":" + str(e)[:80]
                 cases.append(c)
-                ctx.case((writer, seq, oi))
+                ctx.case((writer, seq, oi, churn))
     nstruct = len(cases)
     # (b) cell contents: every field type x value class through each writer (one record, all fields selected)
     vc = gen.value_classes()
@@ -161,7 +175,8 @@ def run(tier):
         fieldnames = ["f", "n", "s"] + RES
         hist = [{"d": "V", "id": 1}]
         for writer, extra in (("csv", ""), ("csv", "lineterminator=\\n"), ("line", ""), ("line", "verbose=true"), ("text", ""), ("text", "format_spec={f}|{n}|{s}"),
-                              ("text", "format_spec={s[0]}{n}|{f}|{s.__class__.__name__}")):        # index and attribute access inside the template
+                              ("text", "format_spec={s[0]}{n}|{f}|{s.__class__.__name__}"),        # index and attribute access inside the template
+                              ("text", "format_spec={n} \u2192 {s}\\t({f}) caf\u00e9 \u4e2d\\n")):     # non-ASCII literal text next to the escapes \t and \n
             p = os.path.join(tmp, "v." + writer)
             url = {"csv": "csvfile://", "line": "line://", "text": "text://"}[writer] + p + ("?" + extra if extra else "")
             c = {"writer": "value:" + writer, "hist": hist, "opts": OPTS[0], "raised": False, "exc": "none", "items": [], "values_ok": False, "readback_checked": False, "readback_ok": True,
@@ -191,7 +206,8 @@ def run(tier):
                         pos = j + len(needle) if j >= 0 else pos
                     c["values_ok"] = bool(ok)
                 else:
-                    exp = (extra.split("=", 1)[1].format(f=rec.f, n=rec.n, s=rec.s) if extra else repr(rec)) + "\n"
+                    tpl = extra.split("=", 1)[1].replace("\\t", "\t").replace("\\n", "\n").replace("\\r", "\r") if extra else ""
+                    exp = (tpl.format(f=rec.f, n=rec.n, s=rec.s) if extra else repr(rec)) + "\n"
                     c["values_ok"] = text == exp
             except Exception as e:
                 c["raised"], c["exc"] = True, type(e).__name__ + ":" + str(e)[:80]
@@ -206,6 +222,9 @@ def run(tier):
     for delim in (",", ";", "\t", "|"):
         for trial in range(3 if not thorough else 12):
             rows = [[ctx.rnd.choice(safe[:5]) for _ in range(3)] for _ in range(ctx.rnd.randint(1, 5))]
+            if trial % 2:
+                rows.insert(ctx.rnd.randint(0, len(rows)), ["", "", ""])        # a record whose cells are all empty is still a record
+                rows.append(["", "x", ""])
             p = os.path.join(tmp, "rb.csv")
             with open(p, "w", newline="", encoding="utf-8") as f:
                 wr = csv.writer(f, delimiter=delim)
